@@ -725,7 +725,10 @@ func c05Crafted(r *kit.Rand) ([]byte, string) {
 	levels := kit.Pick(r, []int{8, 20, 40, 64, 200})
 	fan := kit.Pick(r, []int{2, 2, 3, 16})
 	what := ""
-	switch k := r.Intn(8); k {
+	switch k := r.Intn(9); k {
+	case 8: // a decoder with a helper goroutine as the filter of the cross-reference stream or of an object stream
+		what = "helper-decoder-in-container"
+		return c05HelperInContainer(r), what
 	case 7: // members of an object stream that are streams whose /Length points back into object streams
 		what = "objstm-member-is-a-stream"
 		return c05ObjStmMemberStream(r), what
@@ -891,6 +894,57 @@ func c05TableLast(eol string) ([]byte, int) {
 	b.WriteString(sx)
 	b.Write(tail.Bytes())
 	return b.Bytes(), start
+}
+
+// c05HelperInContainer writes (by hand) a file whose cross-reference stream or
+// object stream names DCTDecode (a decoder that runs a helper goroutine) as
+// its filter, alone or in front of / behind another filter; the data is a
+// valid JPEG, so the decoder starts and has output nobody reads to the end.
+func c05HelperInContainer(r *kit.Rand) []byte {
+	jpg := c08JPEG(r, 128+r.Intn(160), 128+r.Intn(160), r.Bool())
+	filter := kit.Pick(r, []string{"/DCTDecode", "[/DCTDecode]", "[/DCTDecode /ASCIIHexDecode]", "[/DCTDecode /FlateDecode]"})
+	var b bytes.Buffer
+	b.WriteString("%PDF-1.7\n")
+	off := map[int]int{}
+	obj := func(n int, body string) {
+		off[n] = b.Len()
+		fmt.Fprintf(&b, "%d 0 obj\n%s\nendobj\n", n, body)
+	}
+	obj(1, "<</Type/Catalog/Pages 2 0 R/X[5 0 R 6 0 R]>>")
+	obj(2, "<</Type/Pages/Kids[]/Count 0>>")
+	inXRef := r.Bool()
+	if !inXRef {
+		// object stream 4 claims to hold 5 and 6; its data is a JPEG
+		obj(4, fmt.Sprintf("<</Type/ObjStm/N %d/First %d/Filter %s/Length %d>>\nstream\n%s\nendstream",
+			kit.Pick(r, []int{1, 2, 50}), kit.Pick(r, []int{4, 10, 100000}), filter, len(jpg), jpg))
+	}
+	xr := b.Len()
+	var rows []byte
+	row := func(t, f2, f3 int) { rows = append(rows, byte(t), byte(f2>>16), byte(f2>>8), byte(f2), byte(f3)) }
+	row(0, 0, 255)
+	row(1, off[1], 0)
+	row(1, off[2], 0)
+	row(0, 0, 0)
+	if inXRef {
+		row(0, 0, 0)
+		row(0, 0, 0)
+		row(0, 0, 0)
+	} else {
+		row(1, off[4], 0)
+		row(2, 4, 0)
+		row(2, 4, 1)
+	}
+	row(1, xr, 0)
+	if inXRef {
+		// the cross-reference stream itself is "JPEG-compressed"
+		fmt.Fprintf(&b, "7 0 obj\n<</Type/XRef/Size 8/W[1 3 1]/Root 1 0 R/Filter %s/Length %d>>\nstream\n", filter, len(jpg))
+		b.Write(jpg)
+	} else {
+		fmt.Fprintf(&b, "7 0 obj\n<</Type/XRef/Size 8/W[1 3 1]/Root 1 0 R/Length %d>>\nstream\n", len(rows))
+		b.Write(rows)
+	}
+	fmt.Fprintf(&b, "\nendstream\nendobj\nstartxref\n%d\n%%%%EOF\n", xr)
+	return b.Bytes()
 }
 
 // c05ObjStmMemberStream writes (by hand) a file whose object stream has
